@@ -115,7 +115,10 @@ func genTS(t *rapid.T, plain bool) *TS {
 	}
 	ts := &TS{IsFirefighter: rapid.Bool().Draw(t, "tsFF")}
 	if rapid.Bool().Draw(t, "tsHasHosts") {
-		if plain {
+		if rapid.IntRange(0, 2).Draw(t, "tsHostList") == 1 {
+			// host lists as clients write them: several entries, repeated ones, other letter case, empty entries, a final comma
+			ts.Hosts = rapid.SampledFrom([]string{"host01,host02,host03", "host01,host02,host01", "Host01,host01", "a,,b,,a", "a,a", "*,*", "h1,h2,", ",h1", "H1.example.com,h1.example.com,h1.example.com.", "b,a,c,a,b"}).Draw(t, "tsHostListValue")
+		} else if plain {
 			ts.Hosts = vh.GenPlainToken(t, "tsHosts")
 		} else {
 			ts.Hosts = vh.GenAnyString(t, "tsHosts")
